@@ -539,6 +539,12 @@ def run_stock_driven(W, S):
             W.c.loop_contracts.append(lc)
             out = W.call(lambda: s.compute(), stubs=stubs)
             solution = lambda j, *r: lc.pre(j, *r)
+        elif any(not isinstance(e, int) for e in S.esizes):
+            # symbolic extents of the non-time dimensions: independent-iterations loop contract
+            lc = LapackColumnsLoop(W, S, stock0, calls)
+            W.c.loop_contracts.append(lc)
+            out = W.call(lambda: s.compute(), stubs=stubs)
+            solution = (lambda j, *r: lc.pre(j, *r)) if lc.pre is not None else None
         else:
             out = W.call(lambda: s.compute(), stubs=stubs)
             cols = list(itertools.product(*[range(int(e)) for e in S.esizes]))
@@ -572,13 +578,14 @@ def prove_system_solved(W, S, name, stock0):
     props=["C03", "C09", "C10", "C13", "C15"],
     targets=STOCK_TARGETS,
     skeletons=lambda tier: [{"extra": e, "solver": "manual"} for e in range(0, (3 if tier == "thorough" else 2))]
-    + [{"extra": 0, "solver": "lapack", "sizes": []}, {"extra": 1, "solver": "lapack", "sizes": [1]}]
+    + [{"extra": 0, "solver": "lapack", "sizes": []}, {"extra": 1, "solver": "lapack", "sizes": [1]}, {"extra": 1, "solver": "lapack", "sizes": None}]
+    + ([{"extra": 2, "solver": "lapack", "sizes": None}] if tier == "thorough" else [])
     + ([{"extra": 1, "solver": "lapack", "sizes": [2]}, {"extra": 2, "solver": "lapack", "sizes": [1, 2]}] if tier == "thorough" else []),
     stubs=["flodym.lifetime_models.LifetimeModel.sf", "flodym.lifetime_models.LifetimeModel.pdf", "flodym.lifetime_models.UnevenTimeDim.interval_lengths", "scipy.linalg.solve_triangular"],
     note="manual solver: loop invariant over a symbolic number of rows; lapack solver: contract of solve_triangular assumed, loop over the non-time indices unrolled for concrete extra sizes (bounded: 1-2 items per extra dimension); precondition of C10: sf[c,c] > 0",
 )
 def u_stock_driven(W, sk):
-    S = Setup(W, "stock", sk["extra"], solver=sk["solver"], concrete_extra=sk.get("sizes") if sk["solver"] == "lapack" else None)
+    S = Setup(W, "stock", sk["extra"], solver=sk["solver"], concrete_extra=sk.get("sizes") if (sk["solver"] == "lapack" and sk.get("sizes") is not None) else None)
     s = S.s
     snaps = SL.snapshot(W, [s.stock])
     out, stock0, solution = run_stock_driven(W, S)
@@ -601,12 +608,12 @@ def u_stock_driven(W, sk):
     W.prove("compute.solver_contract_available", solution is not None, detail="loop / callee contract was exercised")
     if solution is None:
         return
-    if s.solver == "manual":
+    if s.solver == "manual" or any(not isinstance(e, int) for e in S.esizes):
         r_choices = [tuple(W.fresh_int(f"p_r{j}", 0, e) for j, e in enumerate(S.esizes))]
     else:
         r_choices = list(itertools.product(*[range(int(e)) for e in S.esizes]))
     for r in r_choices:
-        tag = "" if s.solver == "manual" else f"[{','.join(map(str, r))}]"
+        tag = "" if not any(isinstance(a, int) for a in r) else f"[{','.join(map(str, r))}]"
         # P1: the triangular system is solved by x = inflow * dt  (the solver's solution divided and re-multiplied by dt)
         k = W.fresh_int("p_k", 0, n)
         W.lemma_sum_ext(f"compute.system_solved{tag}.x_is_solution", 0, k, lambda j: sf(k, j, *r) * x(j, *r), lambda j: sf(k, j, *r) * solution(j, *r))
@@ -782,7 +789,7 @@ def compare_results(W, name, S1, S2, agree, rs):
     "stocks.solvers_agree",
     props=["C10"],
     targets=["flodym.stocks.StockDrivenDSM._compute_inflow_manual", "flodym.stocks.StockDrivenDSM._compute_inflow_lapack", "flodym.stocks.StockDrivenDSM.compute"],
-    skeletons=lambda tier: [{"extra": 0, "sizes": []}, {"extra": 1, "sizes": [1]}] + ([{"extra": 1, "sizes": [2]}] if tier == "thorough" else []),
+    skeletons=lambda tier: [{"extra": 0, "sizes": []}, {"extra": 1, "sizes": [1]}, {"extra": 1, "sizes": None}] + ([{"extra": 1, "sizes": [2]}, {"extra": 2, "sizes": None}] if tier == "thorough" else []),
     stubs=["flodym.lifetime_models.LifetimeModel.sf", "flodym.lifetime_models.LifetimeModel.pdf", "flodym.lifetime_models.UnevenTimeDim.interval_lengths", "scipy.linalg.solve_triangular"],
     note="same prescribed stock, same survival table, same grid: the 'manual' and the 'lapack' model give the same inflow, outflow and cohort tables (TRI-UNIQUE)",
 )
@@ -797,7 +804,10 @@ def u_solvers_agree(W, sk):
         return
     n = S1.n
     sf = S1.rd(S1.sf)
-    rs = list(itertools.product(*[range(int(e)) for e in S1.esizes])) if W.symbolic else [()]
+    if W.symbolic:
+        rs = [tuple(W.fresh_int(f"ag_r{j}", 0, e) for j, e in enumerate(S1.esizes))] if any(not isinstance(e, int) for e in S1.esizes) else list(itertools.product(*[range(int(e)) for e in S1.esizes]))
+    else:
+        rs = [()]
     agree = {}
     if W.symbolic:
         W.prove("agree.contracts_available", sol1 is not None and sol2 is not None)
@@ -814,7 +824,7 @@ def u_solvers_agree(W, sk):
     "stocks.round_trip",
     props=["C10"],
     targets=["flodym.stocks.InflowDrivenDSM.compute", "flodym.stocks.StockDrivenDSM.compute"],
-    skeletons=lambda tier: [{"extra": 0, "solver": "manual", "sizes": None}, {"extra": 1, "solver": "manual", "sizes": None}, {"extra": 0, "solver": "lapack", "sizes": []}, {"extra": 1, "solver": "lapack", "sizes": [1]}],
+    skeletons=lambda tier: [{"extra": 0, "solver": "manual", "sizes": None}, {"extra": 1, "solver": "manual", "sizes": None}, {"extra": 0, "solver": "lapack", "sizes": []}, {"extra": 1, "solver": "lapack", "sizes": [1]}, {"extra": 1, "solver": "lapack", "sizes": None}],
     stubs=["flodym.lifetime_models.LifetimeModel.sf", "flodym.lifetime_models.LifetimeModel.pdf", "flodym.lifetime_models.UnevenTimeDim.interval_lengths", "scipy.linalg.solve_triangular"],
     note="stock computed by an inflow-driven model, fed to a stock-driven model with the same survival table: original inflow, same outflow, same cohort tables (no sign assumption on the inflow). The converse direction is the obligation compute.stock_reproduced of stocks.stock_driven.compute.",
 )
@@ -836,7 +846,7 @@ def u_round_trip(W, sk):
         W.prove("round_trip.contracts_available", sol is not None)
         if sol is None:
             return
-        rs = [tuple(W.fresh_int(f"rt_r{j}", 0, e) for j, e in enumerate(A.esizes))] if sk["solver"] == "manual" else list(itertools.product(*[range(int(e)) for e in A.esizes]))
+        rs = [tuple(W.fresh_int(f"rt_r{j}", 0, e) for j, e in enumerate(A.esizes))] if (sk["solver"] == "manual" or any(not isinstance(e, int) for e in A.esizes)) else list(itertools.product(*[range(int(e)) for e in A.esizes]))
         agree = {}
         for r in rs:
             xa = lambda j, r=r: inflow0(j, *r) * A.dtk(j)
@@ -1341,3 +1351,65 @@ def u_validation(W, sk):
                 W.prove(f"stock[{case}].lifetime_model_instance_over_the_stock_dimensions", isinstance(s.lifetime_model, lt.NormalLifetime) and [d.letter for d in s.lifetime_model.dims.dim_list] == ["t", "r"])
     if snaps:
         SL.check_unchanged(W, f"stock[{case}]", snaps)
+
+
+# ----------------------------------------------------------------------------------------
+# lapack solver with a symbolic number of items in the non-time dimensions: independent-iterations loop rule
+
+
+class LapackColumnsLoop:
+    """contract for `for i in np.ndindex(self._shape_no_t)` in _compute_inflow_lapack:
+    iteration i writes column i of inflow_whole_period (all rows) with the solution of the triangular system for
+    that column, reads nothing the loop writes, and touches no other column;  P(i): row equations hold for column i"""
+
+    def __init__(self, W, S, stock, calls=None):
+        self.W, self.S, self.stock = W, S, stock
+        self.pre = None
+        self.calls = calls if calls is not None else []
+
+    def _X(self, L):
+        X = L.get("inflow_whole_period")
+        if not isinstance(X, symnp.SymArr):
+            raise core.Unsupported("loop contract: local 'inflow_whole_period' not found (loop structure changed)")
+        return X
+
+    def havoc(self, L):
+        self.name, self.f = symnp.havoc(self._X(L), "XL")
+
+    def before_body(self, L, idx):
+        X = self._X(L)
+        pre = X.frozen()
+        self.before = lambda *i: wrap(pre(tuple(i)))
+        self.n_readers = X._buf.n_frozen
+
+    def after_body(self, L, idx):
+        W, S = self.W, self.S
+        X = self._X(L)
+        W.prove("lapack.loop.iteration_reads_nothing_the_loop_writes", X._buf.n_frozen == self.n_readers, kind="invariant", detail="iterations must be independent")
+        post_f = X.frozen()
+        post = lambda *i: wrap(post_f(tuple(i)))
+        k = W.fresh_int("lc_k", 0, S.n)
+        r = tuple(W.fresh_int(f"lc_r{j}", 0, e) for j, e in enumerate(S.esizes))
+        other = core.sor(*[a != b for a, b in zip(r, idx)]) if r else False
+        W.prove("lapack.loop.other_columns_untouched", core.simplies(other, W.num_eq(post(k, *r), self.before(k, *r))), kind="invariant")
+        k2 = W.fresh_int("lc_k2", 0, S.n)
+        if self.calls:
+            xs = self.calls[-1][2]  # what the callee returned in this iteration (its contract: row equations)
+            sf = S.rd(S.sf)
+            W.lemma_sum_ext("lapack.loop.column_is_the_callee_result", 0, k2, lambda j: sf(k2, j, *idx) * post(j, *idx), lambda j: sf(k2, j, *idx) * wrap(xs.at(j)))
+        W.prove("lapack.loop.column_solved", row_equation(W, S, lambda j, *rr: post(j, *idx), self.stock, k2, idx), kind="invariant", detail="row equations hold for the column written in this iteration")
+
+    def assume_all(self, L):
+        W, S = self.W, self.S
+        X = self._X(L)
+        ex = X.frozen()
+        self.pre = lambda *i: wrap(ex(tuple(i)))
+        zn = to_int(S.n)
+        es = [to_int(e) for e in S.esizes]
+        stock, prex = self.stock, self.pre
+
+        def fact(k, *r):
+            rng = [k >= 0, k < zn] + [z3.And(a >= 0, a < e) for a, e in zip(r, es)]
+            return z3.Implies(z3.And(*rng), core.as_z3_bool(row_equation(W, S, prex, stock, wrap(k), tuple(wrap(a) for a in r))))
+
+        W.c.add_trigger(self.name, fact)
